@@ -85,6 +85,9 @@ SHAPES = {
 }
 
 
+SYS_CAP = 2000
+
+
 def run(chk, tmp, prop):
     plan = PLANS[prop]
     quick = chk.tier == "quick"
@@ -100,7 +103,11 @@ def run(chk, tmp, prop):
         be.run_histories(chk, tmp, grog, hs, prop, lit, label)
     for j, (label, template, acts, cmds, modes, sels, dq, dt, lit) in enumerate(SYS.get(prop, [])):
         res, hs = be.generate(tmp, f"s{j}", template, acts, cmds, modes, sels, dq if quick else dt, 0, chk.seed, systematic=True)
-        chk.add_tlc(f"GrogBuildGen systematic (full build; {(dq if quick else dt) - 2} action(s); build): {label}", res, histories=len(hs))
+        total = len(hs)
+        if total > SYS_CAP:      # a seeded stride through the enumeration keeps the thorough tier within minutes
+            stride = -(-total // SYS_CAP)
+            hs = hs[chk.seed % stride::stride]
+        chk.add_tlc(f"GrogBuildGen systematic (full build; {(dq if quick else dt) - 2} action(s); build): {label}", res, histories=len(hs), enumerated=total)
         be.run_histories(chk, tmp, grog, hs, prop, lit, "systematic " + label)
     for j, (label, template, acts, cmds, modes, sels, style, dq, dt, lit) in enumerate(CANON.get(prop, [])):
         if (dq if quick else dt) == 0:
